@@ -19,7 +19,8 @@ Case format
      {"op":"srcSet","s":s,"i":i,"v":n}           S<s>.v<i> = n
   rhs  : {"k":"atom","a":atom} | {"k":"cont","items":[atom, ...]}        a tuple of atoms
   atom : {"a":"lit","n":int} | {"a":"par","s":s,"i":i}                   S<s>.param.v<i>
-       | {"a":"fn","deps":[[s,i],..],"k":int,"rx":bool}                  bind(lambda *a: k+sum(a), deps…) or the rx expression k + dep.rx() + …
+       | {"a":"fn","deps":[[s,i],..],"k":int,"rx":bool,"sk":int|None}    bind(lambda *a: k+sum(a), deps…) or the rx expression k + dep.rx() + …;
+                                                                         sk: the bound function raises param.Skip when k+sum(a) < sk
   val  : int | [int, ...]
 
 Observation: {"ctor_err": null | name, "init": state, "steps": [state + {"err":…, "log":[…]}, …]}
@@ -73,6 +74,20 @@ def key_supported(tdecl, p, rhs):
     if p >= len(tdecl['params']):
         return rhs_is_lit(rhs)
     return rhs_supported(rhs) and (tdecl['params'][p]['allow_refs'] or rhs_is_lit(rhs))
+
+
+def _norm_atom(a):
+    if a['a'] == 'fn':
+        return {'a': 'fn', 'deps': [list(d) for d in a['deps']], 'k': a['k'], 'rx': bool(a.get('rx')) and a.get('sk') is None,
+                'sk': a.get('sk')}
+    return a
+
+
+def norm_rhs(rhs):
+    """canonical description of a right-hand side (what the refs table is reported as)"""
+    if rhs['k'] == 'atom':
+        return {'k': 'atom', 'a': _norm_atom(rhs['a'])}
+    return {'k': 'cont', 'items': [_norm_atom(a) for a in rhs['items']]}
 
 
 class Runner:
@@ -137,6 +152,15 @@ class Runner:
             return self.srcs[a['s']].param[self.snames[a['i']]]
         deps = [self.srcs[s].param[self.snames[i]] for s, i in a['deps']]
         k = a['k']
+        sk = a.get('sk')
+        if sk is not None:
+            Skip = self.param.parameterized.Skip
+
+            def f(*xs, _k=k, _sk=sk):
+                if _k + sum(xs) < _sk:
+                    raise Skip()
+                return _k + sum(xs)
+            return self.param.bind(f, *deps)
         if a.get('rx') and deps:
             e = deps[0].rx()
             for d in deps[1:]:
@@ -145,6 +169,7 @@ class Runner:
         return self.param.bind(lambda *xs, _k=k: _k + sum(xs), *deps)
 
     def mk_rhs(self, rhs):
+        rhs = norm_rhs(rhs)
         if rhs['k'] == 'atom':
             o = self.mk_atom(rhs['a'])
         else:
@@ -253,18 +278,48 @@ def _run(case, ops):
 ASSIGN_OPS = ('set', 'setCls', 'update', 'ctxEnter')
 
 
-def twin_ops(ops, steps):
+def _atom_skips(a, src):
+    return a['a'] == 'fn' and a.get('sk') is not None and a['k'] + sum(src[s][i] for s, i in a['deps']) < a['sk']
+
+
+def rhs_skips(rhs, src, nested):
+    """does resolving the reference raise Skip on these source values"""
+    if rhs['k'] == 'atom':
+        return _atom_skips(rhs['a'], src)
+    return nested and any(_atom_skips(a, src) for a in rhs['items'])
+
+
+def applied_prefix(case, t, kvs, st, src_before):
+    """how many leading keys of a rejected update were applied: announced to the universal watcher, or a
+    reference whose evaluation raised Skip (linked, nothing stored, nothing announced)"""
+    announced = {e[0] for x in st['log'] if x[0] == 't' and x[1] == t for e in x[2]}
+    pds = case['targets'][t]['params']
+    n = 0
+    for p, rhs in kvs:
+        pd = pds[p] if p < len(pds) else None
+        is_ref = pd is not None and pd['allow_refs'] and not rhs_is_lit(rhs) and \
+            (rhs['k'] == 'atom' or pd['nested_refs'])
+        if p in announced or (is_ref and rhs_skips(rhs, src_before, pd['nested_refs'])):
+            n += 1
+        else:
+            break
+    return n
+
+
+def twin_ops(case, ops, steps, init):
     """the history with every rejected assignment left out"""
     out = []
+    prev = init
     for op, st in zip(ops, steps):
         if st['err'] in ('ValueError', 'TypeError') and op['op'] in ASSIGN_OPS:
             if op['op'] in ('update', 'ctxEnter'):
-                announced = sum(len(e[2]) for e in st['log'] if e[0] == 't' and e[1] == op['t'])
-                out.append({'op': 'update', 't': op['t'], 'kvs': op['kvs'][:announced], 'form': op.get('form', 'pos')})
+                n = applied_prefix(case, op['t'], op['kvs'], st, prev['src'])
+                out.append({'op': 'update', 't': op['t'], 'kvs': op['kvs'][:n], 'form': op.get('form', 'pos')})
             else:
                 out.append({'op': 'update', 't': op['t'], 'kvs': []})
         else:
             out.append(op)
+        prev = st
     return out
 
 
@@ -272,7 +327,7 @@ def run_impl(case):
     try:
         out = _run(case, case['ops'])
         if case.get('prop') == 'C02' and out['ctor_err'] is None:
-            out['twin'] = _run(case, twin_ops(case['ops'], out['steps']))['steps'][:out['cut']]
+            out['twin'] = _run(case, twin_ops(case, case['ops'], out['steps'], out['init']))['steps'][:out['cut']]
         return out
     except Exception as e:
         import traceback
@@ -296,8 +351,8 @@ def par(s, i):
     return {'k': 'atom', 'a': {'a': 'par', 's': s, 'i': i}}
 
 
-def fn(deps, k, rx=False):
-    return {'k': 'atom', 'a': {'a': 'fn', 'deps': [list(d) for d in deps], 'k': k, 'rx': rx}}
+def fn(deps, k, rx=False, sk=None):
+    return {'k': 'atom', 'a': {'a': 'fn', 'deps': [list(d) for d in deps], 'k': k, 'rx': rx and sk is None, 'sk': sk}}
 
 
 def cont(*items):
@@ -345,6 +400,13 @@ def mk_case(prop, src_init, targets, ops, nsp=2):
 def rand_ref(rng, nsrc, nsp, pd, src, want_valid=True, tries=12):
     """a reference suited to parameter pd (valid or invalid on the current sources if possible)"""
     best = None
+
+    def mk_fn(deps, k):
+        # one in four bound functions raises Skip below a threshold near its current value
+        if rng.random() < 0.25:
+            now = k + sum(src[s][i] for s, i in deps)
+            return fn(deps, k, False, now + rng.choice([1, 2, 0, -1, -2]))
+        return fn(deps, k, rng.random() < 0.5)
     for _ in range(tries):
         sp = lambda: (rng.randrange(nsrc), rng.randrange(nsp))
         if pd['kind'] == 'pair' and pd['nested_refs']:
@@ -354,7 +416,7 @@ def rand_ref(rng, nsrc, nsp, pd, src, want_valid=True, tries=12):
                     return lit(rng.randint(0, 6))
                 if r < 0.7:
                     return par(*sp())
-                return fn([sp() for _ in range(rng.randint(1, 2))], rng.randint(-1, 2), rng.random() < 0.5)
+                return mk_fn([sp() for _ in range(rng.randint(1, 2))], rng.randint(-1, 2))
             items = [atom(), atom()]
             if all(x['a']['a'] == 'lit' for x in items):
                 items[rng.randrange(2)] = par(*sp())
@@ -364,7 +426,7 @@ def rand_ref(rng, nsrc, nsp, pd, src, want_valid=True, tries=12):
             if k < 0.45:
                 r = par(*sp())
             else:
-                r = fn([sp() for _ in range(rng.randint(1, 3))], rng.randint(-2, 3), rng.random() < 0.5)
+                r = mk_fn([sp() for _ in range(rng.randint(1, 3))], rng.randint(-2, 3))
         best = r
         if val_ok(pd, ev_rhs(r, src, pd['nested_refs'])) == want_valid:
             return r
@@ -584,7 +646,7 @@ def rhs_kind(rhs):
     if rhs['k'] == 'cont':
         return 'plainpair' if rhs_is_lit(rhs) else 'nested'
     a = rhs['a']
-    return {'lit': 'plain', 'par': 'par'}.get(a['a']) or ('rx' if a.get('rx') else 'fn')
+    return {'lit': 'plain', 'par': 'par'}.get(a['a']) or ('skipfn' if a.get('sk') is not None else 'rx' if a.get('rx') else 'fn')
 
 
 def shrink(case):
